@@ -257,6 +257,14 @@ Fixpoint py_remove1 (l : list Z) (x : Z) : list Z :=
   | y :: r => if y =? x then r else y :: py_remove1 r x
   end.
 
+(** [range(a, b)] and [range(a, b, -1)] as lists. *)
+Fixpoint py_range_up (lo : Z) (k : nat) : list Z :=
+  match k with O => [] | S k' => lo :: py_range_up (lo + 1) k' end.
+Definition py_range (a b : Z) : list Z := py_range_up a (Z.to_nat (b - a)).
+Fixpoint py_range_down (hi : Z) (k : nat) : list Z :=
+  match k with O => [] | S k' => hi :: py_range_down (hi - 1) k' end.
+Definition py_range_desc (a b : Z) : list Z := py_range_down a (Z.to_nat (a - b)).
+
 (** [sorted(l, key=f)] with an integer key: Python's sort is stable (elements
     with equal keys keep their order). *)
 Fixpoint py_ins_by {A} (key : A -> Z) (x : A) (l : list A) : list A :=
